@@ -50,7 +50,7 @@ func (fr *Frame) iterOrdinal(instr ssa.CallInstruction) int {
 func isIterationCall(cc *ssa.CallCommon) bool {
 	if cc.IsInvoke() {
 		switch cc.Method.Name() {
-		case "IterateDelegatorDelegations", "IterateDelegatorUnbondingDelegations":
+		case "IterateDelegatorDelegations", "IterateDelegatorUnbondingDelegations", "IterateBondedValidatorsByPower":
 			return true
 		}
 		return false
@@ -216,6 +216,28 @@ func init() {
 		return c.ret("iface_nil"), true
 	}
 	methodMods["IterateDelegatorDelegations"] = []string{}
+	// ValidatorSet.IterateBondedValidatorsByPower(ctx, fn(index, validator) stop): the bonded validators in power
+	// order, as an abstract sequence of unconstrained ValidatorI values (their methods are unconstrained reads)
+	invokeByMethod["IterateBondedValidatorsByPower"] = func(c *callCtx) (Val, bool) {
+		e := c.e()
+		if len(c.args) < 3 || c.args[2].Clo == nil {
+			return Val{}, false
+		}
+		e.vc.declFun("bonded_len", []string{"Int"}, "Int")
+		e.vc.declFun("bonded_at", []string{"Int", "Int"}, "Iface")
+		e.vc.declSort("(assert (forall ((s Int)) (! (>= (bonded_len s) 0) :pattern ((bonded_len s)))))")
+		ep := e.stakingEpoch(c.st)
+		sig := c.args[2].Clo.fn.Signature
+		spec := iterSpec{name: "bonded_validators", n: e.vc.define("nbonded", "Int", app("bonded_len", ep)), stopIdx: 0, errIdx: -1,
+			elem: func(k string) []Val {
+				v := e.vc.define("bval", "Iface", app("bonded_at", ep, k))
+				e.vc.assume(not(eq(v, "iface_nil")))
+				return []Val{{S: k, T: sig.Params().At(0).Type()}, {S: v, T: sig.Params().At(1).Type()}}
+			}}
+		c.fr.iterate(c, c.args[2].Clo, spec)
+		return c.ret("iface_nil"), true
+	}
+	methodMods["IterateBondedValidatorsByPower"] = []string{}
 	invokeByMethod["GetValidator"] = func(c *callCtx) (Val, bool) {
 		if !strings.HasSuffix(namedPath(c.common.Value.Type()), ".StakingKeeper") {
 			return Val{}, false
